@@ -60,12 +60,15 @@ func CalculateCacheTTL(msg *dns.Msg, respType ResponseType) time.Duration {
 	// Check Authority section. For negative responses, RFC 2308
 	// caps the cache TTL at min(SOA header TTL, SOA.Minttl) — a
 	// response with SOA header TTL 86400 and Minttl 300 must not
-	// be cached for a day.
+	// be cached for a day. A NODATA reached through an alias is
+	// negative too (RFC 2308 §2.2): its answer section holds the
+	// CNAMEs, so it classifies as TypeSuccess, and the SOA in its
+	// authority section is what marks it.
 	for _, rr := range msg.Ns {
 		if ttl := getTTL(rr); ttl < minTTL {
 			minTTL = ttl
 		}
-		if isNegative {
+		if isNegative || respType == TypeSuccess {
 			if soa, ok := rr.(*dns.SOA); ok {
 				if ttl := time.Duration(soa.Minttl) * time.Second; ttl < minTTL {
 					minTTL = ttl
